@@ -53,9 +53,11 @@ fn vk_c16_terms_mirror_mobility() {
 use crate::chess::bitboard::verif_kani_iter as iter;
 
 //@ obligation: C16.terms_mirror.mobility_per_piece
+//@ tier: thorough
+//@ kani_args: --solver kissat
 //@ domain: complete
 //@ functions: engine/eval/mobility_and_king_safety.rs::mobility_and_opp_king_safety_for
-//@ timeout: 2400
+//@ timeout: 7200
 //@ mem_gb: 10
 //@ note: colour symmetry of the mobility / king-attack term in one-shot contract form, NO bound on the number of pieces: on a fully symbolic board (both kings once) the term is computed for White with each of its four piece loops run for ONE arbitrary member, then for Black on the colour-swapped, vertically flipped board with each loop run for the MIRRORED member: the loops iterate mirrored sets (same loops non-empty) and the two terms are equal -- so every piece's contribution (safe-square count -> table entry, enemy-pawn-attack mask included) and the king-zone count are colour-symmetric
 //@ assumes: table lookups == geometry (C07); one-shot iterator contract (C07.bitboard.square_iterator) and loop bodies that only ACCUMULATE (eval += .., attacked |= ..), so the whole-loop result is the fold of per-member results
@@ -82,6 +84,7 @@ fn vk_c16_terms_mirror_mobility_per_piece() {
 }
 
 //@ obligation: C16.canary.mobility
+//@ tier: thorough
 //@ canary: true
 //@ timeout: 2400
 //@ mem_gb: 10
@@ -99,4 +102,216 @@ fn vk_c16_canary_mobility() {
     let b = mobility_and_opp_king_safety_for::<false>(&g1, Player::Black, &mut t);
     assert!(w == b); // must FAIL: the two sides of one board differ
     std::mem::forget(g1);
+}
+
+// ---------------------------------------------------------------------------------------------------------------
+// FUNCTION AGAINST A SPEC FUNCTION, piecewise (prefix / one iteration of each of the four loops / tail, each verbatim):
+//   term(player) =   sum over the player's knights, bishops, rooks, queens p of
+//                        TABLE_kind[ popcount( attacks_kind(p, occupancy) & SAFE ) ]
+//                  - ATTACKED_KING_SQUARES[ popcount( (union of all those attack sets) & king_zone(enemy king) ) ]
+//   SAFE = complement of the squares attacked by the ENEMY's pawns (coordinate geometry, no file wrap).
+// The spec mentions colours only through "the player's pieces", "the enemy's pawns" and the direction those pawns
+// capture in, so it is colour-symmetric by form; the engine function equals it piece by piece.  Also decides that every
+// table index is in range (8 / 13 / 14 / 27 / 8 at most).
+// ---------------------------------------------------------------------------------------------------------------
+use crate::chess::bitboard::Bitboard;
+use crate::chess::square::Square;
+use crate::engine::eval::params::{ATTACKED_KING_SQUARES, BISHOP_MOBILITY, KNIGHT_MOBILITY, QUEEN_MOBILITY, ROOK_MOBILITY};
+
+pub struct MSt {
+    pub eval: PhasedEval,
+    pub blockers: Bitboard,
+    pub mobility_safe_squares: Bitboard,
+    pub attacked_squares: Bitboard,
+}
+
+//@@ prefix: engine/eval/mobility_and_king_safety.rs :: fn mobility_and_opp_king_safety_for :: for p in game.board.knights(player) => #[allow(unused_mut, unused_variables)] fn mob_init<const TRACE: bool>(game: &Game, player: Player, trace: &mut Trace) -> MSt ;; MSt { eval, blockers, mobility_safe_squares, attacked_squares }
+
+//@@ loopstep: engine/eval/mobility_and_king_safety.rs :: fn mobility_and_opp_king_safety_for :: for p in game.board.knights(player) => #[allow(unused_mut, unused_variables)] fn mob_knights_step<const TRACE: bool>(game: &Game, player: Player, trace: &mut Trace, st: MSt) -> MSt ;; let MSt { mut eval, blockers, mobility_safe_squares, mut attacked_squares } = st; let mut verif_iter = 0u8; ;; if verif_iter == 1 { return MSt { eval, blockers, mobility_safe_squares, attacked_squares }; } verif_iter += 1; ;; MSt { eval, blockers, mobility_safe_squares, attacked_squares }
+
+//@@ loopstep: engine/eval/mobility_and_king_safety.rs :: fn mobility_and_opp_king_safety_for :: for p in game.board.bishops(player) => #[allow(unused_mut, unused_variables)] fn mob_bishops_step<const TRACE: bool>(game: &Game, player: Player, trace: &mut Trace, st: MSt) -> MSt ;; let MSt { mut eval, blockers, mobility_safe_squares, mut attacked_squares } = st; let mut verif_iter = 0u8; ;; if verif_iter == 1 { return MSt { eval, blockers, mobility_safe_squares, attacked_squares }; } verif_iter += 1; ;; MSt { eval, blockers, mobility_safe_squares, attacked_squares }
+
+//@@ loopstep: engine/eval/mobility_and_king_safety.rs :: fn mobility_and_opp_king_safety_for :: for p in game.board.rooks(player) => #[allow(unused_mut, unused_variables)] fn mob_rooks_step<const TRACE: bool>(game: &Game, player: Player, trace: &mut Trace, st: MSt) -> MSt ;; let MSt { mut eval, blockers, mobility_safe_squares, mut attacked_squares } = st; let mut verif_iter = 0u8; ;; if verif_iter == 1 { return MSt { eval, blockers, mobility_safe_squares, attacked_squares }; } verif_iter += 1; ;; MSt { eval, blockers, mobility_safe_squares, attacked_squares }
+
+//@@ loopstep: engine/eval/mobility_and_king_safety.rs :: fn mobility_and_opp_king_safety_for :: for p in game.board.queens(player) => #[allow(unused_mut, unused_variables)] fn mob_queens_step<const TRACE: bool>(game: &Game, player: Player, trace: &mut Trace, st: MSt) -> MSt ;; let MSt { mut eval, blockers, mobility_safe_squares, mut attacked_squares } = st; let mut verif_iter = 0u8; ;; if verif_iter == 1 { return MSt { eval, blockers, mobility_safe_squares, attacked_squares }; } verif_iter += 1; ;; MSt { eval, blockers, mobility_safe_squares, attacked_squares }
+
+//@@ suffix: engine/eval/mobility_and_king_safety.rs :: fn mobility_and_opp_king_safety_for :: let enemy_king = => #[allow(unused_mut, unused_variables)] fn mob_tail<const TRACE: bool>(game: &Game, player: Player, trace: &mut Trace, st: MSt) -> PhasedEval ;; let MSt { mut eval, blockers, mobility_safe_squares, mut attacked_squares } = st;
+
+fn any_mst() -> MSt {
+    let (a, b): (i16, i16) = (kani::any(), kani::any());
+    kani::assume(-8000 <= a && a <= 8000 && -8000 <= b && b <= 8000);
+    MSt {
+        eval: PhasedEval::new(a, b),
+        blockers: Bitboard::new(kani::any()),
+        mobility_safe_squares: Bitboard::new(kani::any()),
+        attacked_squares: Bitboard::new(kani::any()),
+    }
+}
+fn pop(x: u64) -> usize {
+    x.count_ones() as usize
+}
+
+//@ obligation: C16.mobility.safe_squares
+//@ property: C16
+//@ domain: complete
+//@ functions: engine/eval/mobility_and_king_safety.rs::mobility_and_opp_king_safety_for
+//@ timeout: 900
+//@ mem_gb: 6
+//@ note: the text of the function before its first loop, on a fully symbolic board for either side: the running term starts at zero, the attacked set empty, the blockers are the board's occupancy, and the mobility-safe squares are EXACTLY the complement of the squares attacked by the enemy's pawns by coordinate geometry (one rank forward for that colour, one file to either side, no wrap across the a/h files)
+//@ assumes: none beyond Kani/CBMC
+#[kani::proof]
+#[kani::unwind(10)]
+fn vk_c16_mobility_safe_squares() {
+    let mb = sym::any_mailbox();
+    let g = symgame::game_with_board(sym::board_of(&mb));
+    let player = geo::any_player();
+    let them = player.other();
+    let mut t = Trace::new();
+    let st = mob_init::<false>(&g, player, &mut t);
+    let mut attacked = 0u64;
+    let mut r: u8 = 0;
+    while r < 8 {
+        let mut f: u8 = 0;
+        while f < 8 {
+            let i = r * 8 + f;
+            if mb[i as usize] == Some(Piece::new(them, PieceKind::Pawn)) {
+                attacked |= geo::pawn(i, them == Player::White);
+            }
+            f += 1;
+        }
+        r += 1;
+    }
+    kani::cover!(attacked != 0 && player == Player::White);
+    assert!(st.mobility_safe_squares.as_u64() == !attacked);
+    assert!(st.eval == PhasedEval::ZERO && st.attacked_squares.is_empty());
+    assert!(st.blockers == g.board.occupancy());
+    std::mem::forget(g);
+}
+
+fn check_step(kind: PieceKind) {
+    let mb = sym::any_mailbox();
+    let g = symgame::game_with_board(sym::board_of(&mb));
+    let player = geo::any_player();
+    let set = g.board.pieces_of_kind(kind, player);
+    let st = any_mst();
+    let (e0, blockers, safe, att0) = (st.eval, st.blockers, st.mobility_safe_squares, st.attacked_squares);
+    let mut t = Trace::new();
+    let post = match kind {
+        PieceKind::Knight => mob_knights_step::<false>(&g, player, &mut t, st),
+        PieceKind::Bishop => mob_bishops_step::<false>(&g, player, &mut t, st),
+        PieceKind::Rook => mob_rooks_step::<false>(&g, player, &mut t, st),
+        _ => mob_queens_step::<false>(&g, player, &mut t, st),
+    };
+    kani::cover!(set.count() >= 2);
+    assert!(post.blockers == blockers && post.mobility_safe_squares == safe);
+    if set.is_empty() {
+        assert!(post.eval == e0 && post.attacked_squares == att0);
+    } else {
+        // the iteration ran for a member of exactly the player's pieces of this kind
+        let p = set.lsb().single().idx();
+        let moves = match kind {
+            PieceKind::Knight => geo::knight(p),
+            PieceKind::Bishop => geo::bishop(p, blockers.as_u64()),
+            PieceKind::Rook => geo::rook(p, blockers.as_u64()),
+            _ => geo::bishop(p, blockers.as_u64()) | geo::rook(p, blockers.as_u64()),
+        };
+        let n = pop(moves & safe.as_u64());
+        let add = match kind {
+            PieceKind::Knight => KNIGHT_MOBILITY[n],
+            PieceKind::Bishop => BISHOP_MOBILITY[n],
+            PieceKind::Rook => ROOK_MOBILITY[n],
+            _ => QUEEN_MOBILITY[n],
+        };
+        assert!(post.attacked_squares.as_u64() == att0.as_u64() | moves);
+        assert!(post.eval == e0 + add);
+    }
+    std::mem::forget(g);
+}
+
+//@ obligation: C16.mobility.step_knights
+//@ property: C16 C04
+//@ domain: complete
+//@ functions: engine/eval/mobility_and_king_safety.rs::mobility_and_opp_king_safety_for
+//@ timeout: 900
+//@ mem_gb: 6
+//@ note: one iteration of the knights loop (block verbatim) from ANY running state: it runs for a member of exactly the player's knights, adds KNIGHT_MOBILITY[popcount(knight geometry(p) & safe)] (index in range), ORs the attack set into the attacked squares and touches nothing else; an empty set leaves the state unchanged
+//@ assumes: table lookups == geometry (C07); loop iterations depend on each other only through the two accumulators
+#[kani::proof]
+#[kani::unwind(10)]
+//@@stubs-tables
+fn vk_c16_mobility_step_knights() {
+    check_step(PieceKind::Knight);
+}
+
+//@ obligation: C16.mobility.step_bishops
+//@ property: C16 C04
+//@ domain: complete
+//@ functions: engine/eval/mobility_and_king_safety.rs::mobility_and_opp_king_safety_for
+//@ timeout: 900
+//@ mem_gb: 6
+//@ note: as C16.mobility.step_knights for the bishops loop: BISHOP_MOBILITY[popcount(diagonal rays(p, blockers) & safe)], at most 13
+//@ assumes: as C16.mobility.step_knights
+#[kani::proof]
+#[kani::unwind(10)]
+//@@stubs-tables
+fn vk_c16_mobility_step_bishops() {
+    check_step(PieceKind::Bishop);
+}
+
+//@ obligation: C16.mobility.step_rooks
+//@ property: C16 C04
+//@ domain: complete
+//@ functions: engine/eval/mobility_and_king_safety.rs::mobility_and_opp_king_safety_for
+//@ timeout: 900
+//@ mem_gb: 6
+//@ note: as C16.mobility.step_knights for the rooks loop: ROOK_MOBILITY[popcount(orthogonal rays(p, blockers) & safe)], at most 14
+//@ assumes: as C16.mobility.step_knights
+#[kani::proof]
+#[kani::unwind(10)]
+//@@stubs-tables
+fn vk_c16_mobility_step_rooks() {
+    check_step(PieceKind::Rook);
+}
+
+//@ obligation: C16.mobility.step_queens
+//@ property: C16 C04
+//@ domain: complete
+//@ functions: engine/eval/mobility_and_king_safety.rs::mobility_and_opp_king_safety_for
+//@ timeout: 900
+//@ mem_gb: 6
+//@ note: as C16.mobility.step_knights for the queens loop: QUEEN_MOBILITY[popcount((diagonal | orthogonal rays)(p, blockers) & safe)], at most 27
+//@ assumes: as C16.mobility.step_knights
+#[kani::proof]
+#[kani::unwind(10)]
+//@@stubs-tables
+fn vk_c16_mobility_step_queens() {
+    check_step(PieceKind::Queen);
+}
+
+//@ obligation: C16.mobility.king_zone_tail
+//@ property: C16 C04
+//@ domain: complete
+//@ functions: engine/eval/mobility_and_king_safety.rs::mobility_and_opp_king_safety_for
+//@ timeout: 900
+//@ mem_gb: 6
+//@ note: the text of the function after its last loop, from ANY running state on a fully symbolic board with exactly one enemy king: the result is the running term minus ATTACKED_KING_SQUARES[popcount(attacked squares & king geometry(enemy king))] (index at most 8)
+//@ assumes: table lookups == geometry (C07)
+#[kani::proof]
+#[kani::unwind(10)]
+//@@stubs-tables
+fn vk_c16_mobility_king_zone_tail() {
+    let mb = sym::any_mailbox();
+    let player = geo::any_player();
+    let them = player.other();
+    kani::assume(rules::count_piece(&mb, Piece::new(them, PieceKind::King)) == 1);
+    let g = symgame::game_with_board(sym::board_of(&mb));
+    let st = any_mst();
+    let (e0, att0) = (st.eval, st.attacked_squares);
+    let mut t = Trace::new();
+    let got = mob_tail::<false>(&g, player, &mut t, st);
+    let k = rules::king_square(&mb, them);
+    let n = pop(att0.as_u64() & geo::king(k));
+    kani::cover!(n == 8);
+    assert!(got == e0 - ATTACKED_KING_SQUARES[n]);
+    std::mem::forget(g);
 }
